@@ -17,10 +17,14 @@ package websocket
 
 //@ func (*Room).Add
 //@   modifies allfields(Room.connections), allfields(Room.maxConnections), allmaps(map[*Connection]bool)
-//@   requires r != nil && ErrRoomFull != nil
+//@   requires r != nil && ErrRoomFull != nil && ErrConnectionClosed != nil
 //@   strict
 //@   ensures err == nil ==> has(r.connections, conn) && r.connections[conn]
-//@   ensures err != nil ==> err == ErrRoomFull && r.maxConnections > 0 && len(r.connections) >= r.maxConnections
+//@   ensures err != nil ==> (err == ErrRoomFull && r.maxConnections > 0 && len(r.connections) >= r.maxConnections) || err == ErrConnectionClosed
+// a disconnected connection is in no room: the hub marks a connection closed before it takes it out of its rooms (both under
+// this room's lock as far as this room is concerned), so a join that finds the connection open inside the critical section is
+// either undone by that removal or happens before the connection is closed; a join that comes later must be refused
+//@   assertat "r.connections[conn] = true" conn != nil && conn.closed != nil ==> !closed(conn.closed)
 //@   check forall(c, *Connection, c != conn ==> has(r.connections, c) == atlock(has(r.connections, c)))
 //@   check err != nil ==> has(r.connections, conn) == atlock(has(r.connections, conn))
 
@@ -84,10 +88,10 @@ package websocket
 //@   ensures result1 == has(rm.rooms, name) && (result1 ==> result == rm.rooms[name] && result != nil)
 
 //@ func (*RoomManager).AddConnectionToRoom
-//@   requires rm != nil && ErrRoomFull != nil
+//@   requires rm != nil && ErrRoomFull != nil && ErrConnectionClosed != nil
 //@   modifies allfields(RoomManager.rooms), allmaps(map[string]*Room), allfields(Room.connections), allfields(Room.maxConnections), allmaps(map[*Connection]bool)
 //@   ensures result == nil ==> has(rm.rooms, roomName) && rm.rooms[roomName] != nil && has(rm.rooms[roomName].connections, conn) && rm.rooms[roomName].connections[conn]
-//@   ensures result != nil ==> result == ErrRoomFull
+//@   ensures result != nil ==> result == ErrRoomFull || result == ErrConnectionClosed
 
 //@ func (*RoomManager).RemoveConnectionFromRoom
 //@   requires rm != nil
@@ -102,7 +106,7 @@ package websocket
 // The connection's own view agrees with the room's membership.
 //@ spec func member(c *Connection, name string) bool = has(c.hub.roomManager.rooms, name) && c.hub.roomManager.rooms[name] != nil && has(c.hub.roomManager.rooms[name].connections, c) && c.hub.roomManager.rooms[name].connections[c]
 //@ func (*Connection).JoinRoom
-//@   requires c != nil && c.hub != nil && c.hub.roomManager != nil && ErrRoomFull != nil
+//@   requires c != nil && c.hub != nil && c.hub.roomManager != nil && ErrRoomFull != nil && ErrConnectionClosed != nil
 //@   strict
 //@   check err == nil ==> has(c.rooms, roomName) && c.rooms[roomName] && member(c, roomName)
 //@   check err != nil ==> has(c.rooms, roomName) == old(has(c.rooms, roomName)) && c.rooms[roomName] == old(c.rooms[roomName])
@@ -120,16 +124,16 @@ package websocket
 // Hub event loop: every critical section over the connection table re-establishes the hub limit.
 // Handlers invoked by the loop reach hub state only through the monitor-protected tables.
 //@ func (*Hub).Run
-//@   requires h != nil && h.roomManager != nil && h.config != nil && ErrRoomFull != nil && !held(addr(h.connMu))
+//@   requires h != nil && h.roomManager != nil && h.config != nil && ErrRoomFull != nil && ErrConnectionClosed != nil && !held(addr(h.connMu))
 //@   unknowncalls like dyncall
 //@   dyncall modifies allfields(Hub.connections), allmaps(map[*Connection]bool), allfields(Room.connections), allfields(Room.maxConnections), allfields(RoomManager.rooms), allmaps(map[string]*Room), allfields(Connection.rooms), allmaps(map[string]bool)
 //@   atunlock heldw(addr(h.connMu)) && h.config.MaxConnectionsPerHub > 0 && len(h.connections) > atlock(len(h.connections)) ==> atlock(len(h.connections)) < h.config.MaxConnectionsPerHub && len(h.connections) == atlock(len(h.connections)) + 1
-//@   loop 1 invariant h.roomManager != nil && h.config != nil && ErrRoomFull != nil
-//@   loop 2 invariant h.roomManager != nil && h.config != nil && ErrRoomFull != nil
-//@   loop 3 invariant h.roomManager != nil && h.config != nil && ErrRoomFull != nil
-//@   loop 4 invariant h.roomManager != nil && h.config != nil && ErrRoomFull != nil
-//@   loop 5 invariant h.roomManager != nil && h.config != nil && ErrRoomFull != nil
-//@   loop 6 invariant h.roomManager != nil && h.config != nil && ErrRoomFull != nil && heldw(addr(h.connMu)) && len(h.connections) <= atlock(len(h.connections))
+//@   loop 1 invariant h.roomManager != nil && h.config != nil && ErrRoomFull != nil && ErrConnectionClosed != nil
+//@   loop 2 invariant h.roomManager != nil && h.config != nil && ErrRoomFull != nil && ErrConnectionClosed != nil
+//@   loop 3 invariant h.roomManager != nil && h.config != nil && ErrRoomFull != nil && ErrConnectionClosed != nil
+//@   loop 4 invariant h.roomManager != nil && h.config != nil && ErrRoomFull != nil && ErrConnectionClosed != nil
+//@   loop 5 invariant h.roomManager != nil && h.config != nil && ErrRoomFull != nil && ErrConnectionClosed != nil
+//@   loop 6 invariant h.roomManager != nil && h.config != nil && ErrRoomFull != nil && ErrConnectionClosed != nil && heldw(addr(h.connMu)) && len(h.connections) <= atlock(len(h.connections))
 
 // Removing a connection from every room only ever shrinks connection sets (summary, not checked
 // against the body: the function ranges over the room table under its read lock and calls
